@@ -5,6 +5,7 @@ some byte width (`width := some w'`) or a plain int (`width := none`).
 -/
 import Rmk.Impl.Misc
 import Rmk.Proofs.Gindex
+import Rmk.Impl.UintExtra
 namespace Rmk.C13
 open Rmk Rmk.Impl
 
@@ -228,5 +229,33 @@ theorem rpow_two_overflow (w a : Nat) (k : Option Nat) (h : 8 * w ≤ a) :
   simpa [h2] using this
 
 example : reflectedOp 1 8 .pow ⟨none, 2⟩ = none ∧ reflectedOp 1 7 .pow ⟨none, 2⟩ = some 128 := by decide
+
+/-- three-argument power: python's residue `(a ^ e) fmod m` (it has the sign of the modulus) is returned as a value of
+    `a`'s type exactly when it lies within the width; a residue outside it (a modulus wider than the type, a negative
+    modulus) and a zero modulus raise -/
+theorem pow3_spec (w a e : Nat) (m : Int) :
+    pow3 w a e m =
+      if m = 0 then none
+      else if 0 ≤ Int.fmod ((a : Int) ^ e) m ∧ Int.fmod ((a : Int) ^ e) m < 2 ^ (8 * w)
+        then some (Int.fmod ((a : Int) ^ e) m).toNat else none := by
+  unfold pow3
+  by_cases hm : m = 0
+  · simp [hm]
+  · simp only [hm, if_false]
+    generalize Int.fmod ((a : Int) ^ e) m = r
+    rw [ctor]
+    by_cases h0 : 0 ≤ r
+    · simp [h0]
+    · simp [h0]
+
+/-- the reflected shift dunders called with a uint on the left are the shift of THAT operand, in ITS type -/
+theorem refl_shift_dunder (wx x wy y : Nat) :
+    reflShiftDunder .lshift wx x wy y = (directOp wx x .lshift ⟨some wy, (y : Int)⟩).map (·, wx) ∧
+    reflShiftDunder .rshift wx x wy y = (directOp wx x .rshift ⟨some wy, (y : Int)⟩).map (·, wx) := by
+  constructor <;> simp [reflShiftDunder, evalBin]
+
+example : pow3 1 3 6 1000 = none ∧ pow3 1 3 2 (-5) = none ∧ pow3 1 3 2 5 = some 4 ∧ pow3 1 200 1 256 = some 200 ∧
+    pow3 1 3 2 0 = none ∧ reflShiftDunder .lshift 2 0x0101 1 4 = some (0x1010, 2) ∧
+    reflShiftDunder .lshift 1 1 2 8 = some (0, 1) := by decide
 
 end Rmk.C13
